@@ -93,6 +93,25 @@ func ptOf(h string) (*bn.G1, bool) {
 	return g, true
 }
 
+// G2 point supplied by a generator: 128 canonical bytes, or 00 for infinity
+func pt2Of(h string) (*bn.G2, bool) {
+	b, ok := unhex(h)
+	if !ok {
+		return nil, false
+	}
+	if len(b) == 1 && b[0] == 0 {
+		return new(bn.G2).ScalarBaseMult(big.NewInt(0)), true
+	}
+	if len(b) != 128 {
+		return nil, false
+	}
+	g := new(bn.G2)
+	if _, err := g.Unmarshal(b); err != nil {
+		return nil, false
+	}
+	return g, true
+}
+
 func errClass(err error) string {
 	if err == nil {
 		return "ok"
@@ -269,6 +288,78 @@ func exec(line string) string {
 			return "bad-op"
 		}
 		return hx.Hex(new(bn.G1).ScalarMult(a, k).Marshal())
+	case w[0] == "g2neg" && len(w) == 2:
+		a, ok := pt2Of(w[1])
+		if !ok {
+			return "bad-op"
+		}
+		return hx.Hex(new(bn.G2).Neg(a).Marshal())
+	case w[0] == "g2add" && len(w) == 3:
+		a, ok1 := pt2Of(w[1])
+		b, ok2 := pt2Of(w[2])
+		if !ok1 || !ok2 {
+			return "bad-op"
+		}
+		return hx.Hex(new(bn.G2).Add(a, b).Marshal())
+	case w[0] == "g2mul" && len(w) == 3:
+		a, ok1 := pt2Of(w[1])
+		k, ok2 := bigDec(w[2])
+		if !ok1 || !ok2 {
+			return "bad-op"
+		}
+		return hx.Hex(new(bn.G2).ScalarMult(a, k).Marshal())
+	case w[0] == "pkgen" && len(w) == 2:
+		k, ok := bigDec(w[1])
+		if !ok {
+			return "bad-op"
+		}
+		pk := groupsig.GeneratePubkey(seckeyOf(k))
+		back := groupsig.ByteToPublicKey(pk.Serialize())
+		return pubReport(pk) + " back=" + pubReport(&back)
+	case w[0] == "pkagg":
+		var pks []groupsig.Pubkey
+		for _, h := range w[1:] {
+			b, ok := unhex(h)
+			if !ok {
+				return "bad-op"
+			}
+			var pk groupsig.Pubkey
+			if len(b) == 1 && b[0] == 0 {
+				// the identity key: only obtainable as a value, not by parsing
+				pk = *groupsig.GeneratePubkey(seckeyOf(big.NewInt(0)))
+			} else if len(b) != 128 || pk.Deserialize(b) != nil {
+				return "bad-op"
+			}
+			pks = append(pks, pk)
+		}
+		agg := groupsig.AggregatePubkeys(pks)
+		if agg == nil {
+			return "nil"
+		}
+		return hx.Hex(agg.Serialize())
+	case w[0] == "jlin" && len(w) == 5:
+		a, ok1 := ptOf(w[1])
+		k1, ok2 := bigDec(w[2])
+		b, ok3 := ptOf(w[3])
+		k2, ok4 := bigDec(w[4])
+		if !ok1 || !ok2 || !ok3 || !ok4 {
+			return "bad-op"
+		}
+		x := new(bn.G1).ScalarMult(a, k1)
+		y := new(bn.G1).ScalarMult(b, k2)
+		return hx.Hex(new(bn.G1).Add(x, y).Marshal())
+	case w[0] == "jdbl" && len(w) == 3:
+		a, ok1 := ptOf(w[1])
+		k, ok2 := bigDec(w[2])
+		if !ok1 || !ok2 {
+			return "bad-op"
+		}
+		// fresh values each time: Marshal normalises its receiver in place
+		mk := func() *bn.G1 { return new(bn.G1).ScalarMult(a, k) }
+		d := new(bn.G1).Add(mk(), mk()).Marshal()
+		n := new(bn.G1).Neg(mk()).Marshal()
+		z := new(bn.G1).Add(mk(), new(bn.G1).Neg(mk())).Marshal()
+		return hx.Hex(d) + " " + hx.Hex(n) + " " + hx.Hex(z)
 	case w[0] == "sign" && len(w) == 4:
 		k, ok1 := bigDec(w[1])
 		msg, ok2 := unhex(w[2])
@@ -881,6 +972,58 @@ func runCorr(a map[string]string) {
 			do("g1mul " + p + " " + g.scalar().String())
 		}
 		do("h2p " + hx.Hex(g.msg()))
+	}
+	// Jacobian arithmetic on NON-normalised operands (results of ScalarMult have z != 1)
+	for i := 0; i < narith; i++ {
+		p, q := hx.Hex(g.point()), hx.Hex(g.point())
+		k1, k2 := g.scalar(), g.scalar()
+		switch i % 6 {
+		case 0:
+			q = p // same base: Add sees equal x after cross-multiplication
+		case 1:
+			q, k2 = p, k1 // the very same point with different z: doubling branch
+		case 2:
+			q, k2 = p, new(big.Int).Sub(bigR, new(big.Int).Mod(k1, bigR)) // opposite points: z = 0 branch
+		case 3:
+			k2 = big.NewInt(0) // infinity operand
+		}
+		do("jlin " + p + " " + k1.String() + " " + q + " " + k2.String())
+		do("jdbl " + p + " " + k1.String())
+	}
+	// G2: twist arithmetic, key generation, key aggregation
+	for i := 0; i < narith/2; i++ {
+		k1, k2 := g.sk(), g.sk()
+		p := hx.Hex(new(bn.G2).ScalarBaseMult(k1).Marshal())
+		q := hx.Hex(new(bn.G2).ScalarBaseMult(k2).Marshal())
+		np := exec("g2neg " + p)
+		do("g2neg " + p)
+		do("g2add " + p + " " + q)
+		do("g2add " + p + " " + p)
+		do("g2add " + p + " " + np)
+		do("g2add " + p + " 00")
+		do("g2add 00 " + q)
+		do("pkagg " + p + " " + q + " " + np)
+		do("pkagg " + p)
+		do("pkagg " + p + " " + np) // the identity key as an aggregate: serialises to 00
+		if i < 3 {
+			do("g2mul " + p + " " + g.scalar().String())
+			do("pkgen " + g.scalar().String())
+			if t := twistCofactorPoint(r); t != nil {
+				// points of the twist outside the order-r subgroup are accepted by Unmarshal
+				tp := hx.Hex(t.Marshal())
+				do("g2add " + p + " " + tp)
+				do("g2neg " + tp)
+			}
+		}
+	}
+	do("pkagg")
+	do("pkgen 0")
+	do("pkgen 1")
+	do("pkgen " + bigR.String())
+	do("g2mul " + hx.Hex(bn.GetG2Base().Marshal()) + " " + bigR.String())
+	// SHA-256 padding boundaries (the model hashes by itself now)
+	for _, n := range []int{0, 1, 54, 55, 56, 57, 63, 64, 65, 118, 119, 120, 127, 128, 129, 200} {
+		do("h2p " + hx.Hex(r.Bytes(n)))
 	}
 	do("g1mul " + hx.Hex(g.point()) + " " + bigR.String())
 	do("g1mul " + hx.Hex(g.point()) + " 0")
